@@ -709,6 +709,14 @@ func (e *Enc) loopHead(li *loopInfo, st *State, phiIn map[ssa.Value]Val) {
 			d := e.evalExpr(dc.Expr, env)
 			if !d.Bad && len(d.L) == 1 {
 				li.decTerm = e.def(e.fresh("variant"), SI, e.coerceInt(d, SI))
+				li.decUnsigned = false
+				if d.T != nil {
+					if bt, ok := d.T.Underlying().(*types.Basic); ok {
+						if _, signed := intBits(bt); !signed {
+							li.decUnsigned = true
+						}
+					}
+				}
 			}
 		}
 		e.inlineSubst, e.inlineHead, e.inlineState = nil, nil, nil
@@ -850,8 +858,12 @@ func (e *Enc) backEdge(from, head *ssa.BasicBlock, st *State) {
 		d := e.evalExpr(dc.Expr, env)
 		if !d.Bad && len(d.L) == 1 {
 			d1 := e.coerceInt(d, SI)
-			e.oblige("variant", lname+fmt.Sprintf(".from%d", e.backOrdinal(li, from)), pos, reach,
-				and(e.M.ile(e.M.ilit(0), li.decTerm), e.M.ilt(d1, li.decTerm)), "loop variant decreases and is bounded below: "+dc.Text)
+			cond := and(e.M.ile(e.M.ilit(0), li.decTerm), e.M.ilt(d1, li.decTerm))
+			if li.decUnsigned {
+				// an unsigned variant is bounded below by its type
+				cond = e.M.lt(false, d1, li.decTerm)
+			}
+			e.oblige("variant", lname+fmt.Sprintf(".from%d", e.backOrdinal(li, from)), pos, reach, cond, "loop variant decreases and is bounded below: "+dc.Text)
 		}
 	}
 	e.inlineSubst, e.inlineHead, e.inlineState = nil, nil, nil
